@@ -199,17 +199,17 @@ class Tracker:
         return rnd, prev, idx, vp
 
 
-def oracle(s):
+def oracle(s, allowed=None):
     """C01 + C03 evaluated on the implementation's answers of one sequence. Returns (code, why, op index) or None."""
-    r = _oracle(s)
-    if r is None:
-        return None
-    why, i = r
-    return (code_of(why), why, i)
+    for why, i in _oracle(s):
+        code = code_of(why)
+        if allowed is None or code in allowed:
+            return (code, why, i)
+    return None
 
 
 CODES = [("got stuck or crashed", "stuck"), ("the partial the node broadcast", "own-partial"), ("base store Put", "put-invalid"), ("labelling inconsistent", "labels"),
-         ("aggregation stored round", "agg-wrong-round"), ("created by aggregation after only", "below-threshold"),
+         ("aggregation stored round", "agg-wrong-round"), ("created by aggregation after only", "below-threshold"), ("accepted a partial that", "invalid-accepted"),
          ("does not verify under the group key", "served-invalid"), ("is not sha256", "randomness"), ("without randomness", "randomness"),
          ("asked for round", "wrong-round"), ("returned the beacon of round", "wrong-round"), ("never stored", "served-not-stored"),
          ("latest is round", "latest-not-head"), ("sent an earlier round", "stream-earlier-round")]
@@ -230,22 +230,23 @@ def _oracle(s):
         if left.startswith("panic") or left.startswith("err:") or left == "bad-op":
             if left == "bad-op" or "index out of range" in left:
                 continue   # a malformed generator line, not the node
-            return (f"the node under test got stuck or crashed: {left}", i)
+            yield (f"the node under test got stuck or crashed: {left}", i)
+            return
         lt = left.split()
         puts = parse_items((rfield(left, "puts") or "-"))
         pv = (rfield(right, "pv") or "-").split(",")
         # --- C01: every base Put of round >= 1 verifies under the group key
         for (r, sig, prev), ok in zip(puts, pv):
             if r >= 1 and ok != "1":
-                return (f"base store Put of round {r} with a signature that does not verify under the group key (scheme.VerifyBeacon)", i)
+                yield (f"base store Put of round {r} with a signature that does not verify under the group key (scheme.VerifyBeacon)", i)
         # --- label sanity: a beacon verifies iff its signature is the group signature of its digest
         if f[0] in ("syncput",) or (f[0] == "serve" and " b " in " " + right + " "):
             rt = right.split()
             j = rt.index("b")
             if (rfield(right, "vb") == "1") != (rt[j + 2] == rfield(right, "gs")):
-                return ("harness labelling inconsistent: VerifyBeacon disagrees with equality to the group signature", i)
+                yield ("harness labelling inconsistent: VerifyBeacon disagrees with equality to the group signature", i)
         if f[0] == "own" and rfield(right, "bcsame") == "0":
-            return ("the partial the node broadcast is not its share's signature on the digest of (head+1, head signature)", i)
+            yield ("the partial the node broadcast is not its share's signature on the digest of (head+1, head signature)", i)
         # --- C03 bookkeeping and check
         agg_op = f[0] in ("deliver", "replay", "own")
         if agg_op:
@@ -255,6 +256,9 @@ def _oracle(s):
             # indices a network partial may not carry: the node's share index (0) and the index listed with its address
             ours = {0, 1} if g["swap"] else {0}
             counts = member and vp is not None and vp[tr.live] == "1" and (f[0] == "own" or idx not in ours)
+            if f[0] != "own" and lt[0] == "ok" and rnd > tr.head and idx not in ours and not (member and vp is not None and vp[tr.live] == "1"):
+                what = "does not verify under the live polynomial" if member else "carries an index that is not in the live group"
+                yield (f"ProcessPartialBeacon accepted a partial that {what} (round {rnd}, index {idx})", i)
             if counts:
                 ks = tr.delivered.setdefault((rnd, prev), {}).setdefault(idx, set())
                 ks.update(k for k, ch in enumerate(vp) if ch == "1")
@@ -264,9 +268,9 @@ def _oracle(s):
                 have = [j for j, ks in tr.delivered.get((rnd, prev), {}).items() if tr.live in ks]
                 for (r, sig, pprev) in new:
                     if r != rnd:
-                        return (f"aggregation stored round {r} on a partial for round {rnd}", i)
+                        yield (f"aggregation stored round {r} on a partial for round {rnd}", i)
                 if len(have) < g["thr"]:
-                    return (f"beacon of round {rnd} created by aggregation after only {len(have)} distinct valid member partials "
+                    yield (f"beacon of round {rnd} created by aggregation after only {len(have)} distinct valid member partials "
                             f"for exactly (round {rnd}, prev {prev[:8]}…) — threshold is {g['thr']}", i)
         elif f[0] == "setinfo" and left.startswith("ok"):
             tr.live = int(f[1])
@@ -287,7 +291,7 @@ def _oracle(s):
                     return f"{what}: served round {r} with a signature that was never stored"
                 if r >= 1 and r not in tr.stored:
                     return f"{what}: served round {r}, which was never stored"
-            return None
+            return
         if f[0] in ("get", "last", "pubrand", "proxyget") and ":" in lt[0]:
             items = parse_items(lt[0])
             v = rfield(right, "v") or "?"
@@ -295,33 +299,33 @@ def _oracle(s):
             vb = [v + ("/" + rnd_hex if rnd_hex and f[0] == "proxyget" else "")]
             want = int(f[1]) if f[0] != "last" else None
             if f[0] == "get" and items[0][0] != want:
-                return (f"get {want} returned the beacon of round {items[0][0]}", i)
+                yield (f"get {want} returned the beacon of round {items[0][0]}", i)
             why = check_served(items, vb, f[0], want)
             if why:
-                return (why, i)
+                yield (why, i)
             if f[0] == "proxyget" and (not rnd_hex or rnd_hex == "-"):
-                return ("proxyget: response without randomness", i)
+                yield ("proxyget: response without randomness", i)
             if (f[0] == "last" or (want == 0 and f[0] != "get")) and items[0][0] != tr.head:
-                return (f"{f[0]}: latest is round {items[0][0]} but the store head is {tr.head}", i)
+                yield (f"{f[0]}: latest is round {items[0][0]} but the store head is {tr.head}", i)
         if f[0] == "scan" and lt[0] != "-":
             why = check_served(parse_items(lt[0]), (rfield(right, "v") or "").split(","), "cursor scan")
             if why:
-                return (why, i)
+                yield (why, i)
         if f[0] == "serve" and lt[0] == "live":
             sc = parse_items(rfield(left, "scan"))
             lv = parse_items(rfield(left, "live"))
             why = check_served(sc, (rfield(right, "v") or "").split(","), "SyncChain scan") or \
                 check_served(lv, (rfield(right, "lv") or "").split(","), "SyncChain live")
             if why:
-                return (why, i)
+                yield (why, i)
             frm = int(f[1])
             if any(r < frm for r, _, _ in sc):
-                return (f"SyncChain from {frm} sent an earlier round", i)
+                yield (f"SyncChain from {frm} sent an earlier round", i)
             if f[2] == "pub":
                 for vb in (rfield(right, "v") or "-").split(",") + (rfield(right, "lv") or "-").split(","):
                     if vb != "-" and vb.endswith("/-"):
-                        return ("PublicRandStream item without randomness", i)
-    return None
+                        yield ("PublicRandStream item without randomness", i)
+    return
 
 
 # ---------------------------------------------------------------------------------------------------------
